@@ -35,6 +35,14 @@ def unpack(z):
     return zlib.decompress(base64.b64decode(z))
 
 
+def ngrams_of(flags):
+    """content of the n-gram list a case was run with, for the replay file"""
+    for f in flags:
+        if f.startswith("ngrams=") and os.path.exists(f[7:]):
+            return pack(open(f[7:], "rb").read())
+    return None
+
+
 def family(t):
     return "virtual" if t == "v" else ("probing" if int(t) < 2 else "trie")
 
@@ -86,21 +94,58 @@ def base_arpas(ctx, rng):
     return bases
 
 
-def make_binaries(ctx, bases, build_drv):
-    """valid binary files of all six types for a few base models (release build: the writer is not under test here)"""
+def build_binary(ctx, build_drv, name, data, t, novocab):
+    """one valid binary file (release build: the writer is not under test here) with what the harness knows about it:
+    total_map = header + image bytes (the file length without the vocabulary strings), order, the model's n-grams"""
+    src = os.path.join(ctx.scratch, "base-%s.arpa" % name)
+    if not os.path.exists(src):
+        open(src, "wb").write(data)
+    dst = os.path.join(ctx.scratch, "base-%s.%d.%d.bin" % (name, t, novocab))
+    rc, o, e = vlib.sh([build_drv, "--build", src, str(t), dst] + (["novocab"] if novocab else []), timeout=120)
+    if rc != 0 or not os.path.exists(dst):
+        return None
+    b = open(dst, "rb").read()
+    os.remove(dst)
+    total_map = len(b) if novocab else len(b) - c10gen.vocab_strings_len(data)
+    if not novocab and b[total_map:total_map + 6] != b"<unk>\x00":
+        raise vlib.InfraError("vocabulary strings of %s type %d are not where the harness expects them" % (name, t))
+    ng = os.path.join(ctx.scratch, "base-%s.ngrams" % name)
+    if not os.path.exists(ng):
+        secs = c10gen.arpa_sections(data)
+        lines = [b" ".join(g) for n in sorted(secs, reverse=True) for g in secs[n]][:6000]
+        open(ng, "wb").write(b"\n".join(lines) + b"\n")
+    order, hdr = c10gen.binary_regions(b)
+    return {"name": name, "type": t, "data": b, "novocab": novocab, "total_map": total_map, "order": order, "hdr": hdr, "ngrams": ng}
+
+
+def make_binaries(ctx, bases, build_drv, novocab=False, types=range(6)):
     out = []
     for name, data in bases:
-        src = os.path.join(ctx.scratch, "base-%s.arpa" % name)
-        open(src, "wb").write(data)
-        for t in range(6):
-            dst = os.path.join(ctx.scratch, "base-%s.%d.bin" % (name, t))
-            rc, o, e = vlib.sh([build_drv, "--build", src, str(t), dst], timeout=120)
-            if rc == 0 and os.path.exists(dst):
-                out.append((name, t, open(dst, "rb").read()))
-            try:
-                os.remove(dst)
-            except OSError:
-                pass
+        for t in types:
+            r = build_binary(ctx, build_drv, name, data, t, novocab)
+            if r:
+                out.append(r)
+    return out
+
+
+def page_tuned_binaries(ctx, rng, build_drv, types):
+    """no-vocabulary binaries whose image ends just after a page boundary (total_map mod 4096 in 1 .. header size): the number
+    of filler words is searched, nothing else"""
+    out = []
+    for t in types:
+        best = None
+        start = rng.range(40, 120)
+        for n in range(start, start + 260):
+            r = build_binary(ctx, build_drv, "fill%d" % n, c10gen.render(c10gen.gen_filler_model(vlib.Rng(n), n)), t, True)
+            if not r:
+                continue
+            m = r["total_map"] % 4096
+            if best is None or (0 < m < (best["total_map"] % 4096 or 4096)):
+                best = r
+            if 0 < m <= r["hdr"] - 8:
+                break
+        if best:
+            out.append(best)
     return out
 
 
@@ -161,16 +206,38 @@ def run(ctx):
     bins = make_binaries(ctx, bases[:1] + bases[2:2 + ctx.pick(1, 4)] + [big], build_drv)
     n_bin = ctx.pick(420, 20000)
     for _ in range(n_bin):
-        name, bt, data = rng.choice(bins)
+        bn = rng.choice(bins)
+        name, bt, data = bn["name"], bn["type"], bn["data"]
+        image = None
         if rng.chance(1, 10):
             mut, mname = data, "identity"          # valid file, possibly offered to the wrong class
+            image = bn
         else:
             mut, mname = c10gen.mutate_binary(rng, data)
+            if mname.startswith("truncate") and len(mut) >= bn["hdr"]:
+                image = bn
         t = rng.choice([str(bt), str(bt), "v", str(rng.below(6))])
         flags = ["method=%d" % rng.choice([0, 1, 2, 3, 3])]
         if t == "v" or rng.chance(1, 3) or mname.startswith("has-vocab"):
             flags.append("enum")
         add("binary", mut, [mname, "built-as:" + TYPE_NAMES[bt]], t, flags)
+        meta[-1]["image"] = image
+    # truncations of the memory image itself: binaries without vocabulary strings (Config::include_vocab = false), where the
+    # file is exactly the mapped image; short by 1 .. header-size bytes and around page boundaries; every mmap load method;
+    # after a load that succeeds all n-grams of the model are scored, so the last records of every array are reached
+    nov = make_binaries(ctx, bases[:1] + [big], build_drv, novocab=True, types=range(6) if not ctx.quick else [0, 1, 2, rng.range(3, 5)])
+    nov += page_tuned_binaries(ctx, rng, build_drv, [0, 2, rng.range(3, 5)] if ctx.quick else range(6))
+    ctx.coverage["page_tuned_images_mod_4096"] = [b["total_map"] % 4096 for b in nov if b["name"].startswith("fill")]
+    for bn in nov:
+        tuned = bn["name"].startswith("fill")
+        add("binary", bn["data"], ["identity", "no-vocab", "built-as:" + TYPE_NAMES[bn["type"]]], str(bn["type"]), ["method=%d" % rng.below(4), "ngrams=" + bn["ngrams"]])
+        meta[-1]["image"] = bn
+        for cut in c10gen.image_cuts(rng, bn["total_map"], bn["hdr"], ctx.pick(8 if tuned else 4, 40)):
+            for method in ([0, 1, 2] if tuned else [rng.below(3)]) + ([3] if rng.chance(1, 4) else []):
+                t = str(bn["type"]) if rng.chance(5, 6) else "v"
+                add("binary", bn["data"][:cut], ["truncate:image-%d" % (bn["total_map"] - cut), "no-vocab", "built-as:" + TYPE_NAMES[bn["type"]]], t,
+                    ["method=%d" % method, "ngrams=" + bn["ngrams"]])
+                meta[-1]["image"] = bn
     outs = []
     step = 400
     for i in range(0, len(cases), step):
@@ -216,6 +283,13 @@ def run(ctx):
             if line not in keys:
                 keys[line] = len(mlines); mlines.append(line)
             m["model_key"] = keys[line]
+            im = m.get("image")
+            if im:
+                # BinaryFormat::LoadBinary's size test: file size, order, image bytes after the header as the writer produced them
+                sl = "S %x %x %x" % (len(data), im["order"], im["total_map"] - im["hdr"])
+                if sl not in keys:
+                    keys[sl] = len(mlines); mlines.append(sl)
+                m["size_key"] = keys[sl]
         mout = []
         for i in range(0, len(mlines), 2000):
             mout += vlib.run_lines(ocaml, mlines[i:i + 2000], timeout=1200)
@@ -225,6 +299,14 @@ def run(ctx):
             c = verdict_class(v)
             if mo == "REJECT UNMODELLED":
                 unmodelled += 1
+            elif mo == "UNDECIDED" and "size_key" in m and mout[m["size_key"]] == "REJECT Format":
+                # the header is fine but the file is shorter than header + image: FormatLoadException from LoadBinary (or, when a
+                # structure reads its configuration bytes from the missing part first, the EndOfFileException of that read)
+                m["model"] = mo = "REJECT Format (LoadBinary size test)"
+                if c not in ("exception:Format", "exception:EndOfFile"):
+                    mismatches.append((m, v, mo))
+                else:
+                    validated += 1
             elif mo == "UNDECIDED":
                 undecided += 1
             elif mo.startswith("ACCEPT"):
@@ -261,7 +343,10 @@ def run(ctx):
                             "duplicate unigrams, pruned contexts, CR/LF variants, foreign magic numbers, a 7th order, trailing data, degenerate tiny files; (b) byte-level "
                             "flips / inserts / deletes; (c) truncations and header-field mismatches (magic, version, sanity block, order, multiplier, type, vocabulary flag, "
                             "search version, incomplete marker) of valid binary files of all six types, offered to the matching class, another class and LoadVirtual, "
-                            "through LAZY / POPULATE_OR_LAZY / POPULATE_OR_READ / READ.  Announced counts are capped at 2e6.  Every case is one (file, model class, flags); "
+                            "through LAZY / POPULATE_OR_LAZY / POPULATE_OR_READ / READ; (d) truncations of the memory image of binaries built without vocabulary strings "
+                            "(file = mapped image), short by 1 .. ~3 header sizes and ending on / around page boundaries, incl. filler models whose image ends just after "
+                            "a page boundary, under every mmap method, followed by scoring all n-grams of the model; the LoadBinary size predicate of the model "
+                            "(file_size >= header + image) decides accept / reject for every pure truncation.  Announced counts are capped at 2e6.  Every case is one (file, model class, flags); "
                             "a load that succeeds is queried with every word id in [0, Bound()) after random in-vocabulary histories (FullScore, FullScoreForgotState, "
                             "GetState, ExtendLeft).  Non-trivial = every mutated case; distinct = distinct (file bytes, class).")
     ctx.assumptions += ["memory safety of the C++ is observed through ASan+UBSan (alignment check off: the unaligned 64-bit loads are intended on x86-64), not proved",
@@ -274,7 +359,7 @@ def run(ctx):
         data = open(m["path"], "rb").read()
         ctx.report(signature_of(m["source"], m["type"], v), msg,
                    {"source": m["source"], "type": m["type"], "flags": m["flags"], "mutations": m["mutations"], "verdict": v,
-                    "file_z": pack(data), "file_len": len(data)})
+                    "file_z": pack(data), "file_len": len(data), "ngrams_z": ngrams_of(m["flags"])})
     if not fails:
         if mismatches:
             m, v, mo = mismatches[0]
@@ -282,7 +367,7 @@ def run(ctx):
             ctx.report("correspondence:%s:%s" % (m["source"], family(m["type"])), "extracted loader model and implementation disagree on accept / reject or on the exception class; "
                        "the specification oracle accepts the implementation's behaviour",
                        {"source": m["source"], "type": m["type"], "flags": m["flags"], "mutations": m["mutations"], "verdict": v, "model": mo,
-                        "n_mismatches": len(mismatches), "file_z": pack(data)}, found=False)
+                        "n_mismatches": len(mismatches), "file_z": pack(data), "ngrams_z": ngrams_of(m["flags"])}, found=False)
         elif model_broken:
             ctx.report("model-broken", "executable model no longer builds", {"log": model_broken[-2000:]}, found=False)
         ctx.report_proof(pres)
@@ -295,7 +380,11 @@ def replay(ctx, obj):
     drv = vlib.compile_driver("c10_driver", DRV, variant="asan", opt="-O1")
     p = os.path.join(ctx.scratch, "replay." + ("arpa" if r["source"] == "arpa" else "bin"))
     open(p, "wb").write(unpack(r["file_z"]) if "file_z" in r else bytes.fromhex(r["file_hex"]))
-    flags = [f for f in r["flags"] if not f.startswith("build=")] + (["build=" + p + ".out"] if any(f.startswith("build=") for f in r["flags"]) else [])
+    flags = [f for f in r["flags"] if not f.startswith("build=") and not f.startswith("ngrams=")] + \
+            (["build=" + p + ".out"] if any(f.startswith("build=") for f in r["flags"]) else [])
+    if r.get("ngrams_z"):
+        open(p + ".ngrams", "wb").write(unpack(r["ngrams_z"]))
+        flags.append("ngrams=" + p + ".ngrams")
     v = run_cases(drv, [(r["type"], p, 1, flags)], 120)[0]
     print("type:", r["type"], "flags:", flags, "mutations:", r["mutations"], "\nverdict:", v, "\noracle:", oracle(v) or "ok")
     if r.get("model"):
